@@ -965,6 +965,16 @@ func (interp *Interpreter) cfg(root *node, sc *scope, importPath, pkgName string
 			}
 
 			switch n.action {
+			case aAdd, aSub, aMul, aQuo, aAnd, aOr, aXor, aAndNot:
+				// The type of an operation on a typed operand is the type of this operand, whatever
+				// the type expected by the context, which is checked when the result is used.
+				switch {
+				case n.typ == nil:
+				case !c0.typ.untyped:
+					n.typ = c0.typ
+				case !c1.typ.untyped:
+					n.typ = c1.typ
+				}
 			case aRem:
 				n.typ = c0.typ
 			case aShl, aShr:
